@@ -38,9 +38,16 @@ Proof. destruct a, b; unfold Messages_eqb; cbn. rewrite !andb_true_iff, String.e
 
 Section Safety.
 Variables RM RMFault RMDead : list Z.
+Variable MaxView : Z.
+(* sets are represented by duplicate-free lists; the constants satisfy the module's ASSUME, translated with the rest of the spec *)
 Hypothesis RM_nodup : NoDup RM.
 Hypothesis Fault_nodup : NoDup RMFault.
-Hypothesis Fault_le : Z.of_nat (List.length RMFault) <= d_F RM.   (* ASSUME Cardinality(RMFault) <= F *)
+Hypothesis Assume : d_ASSUME RMFault MaxView RMDead RM = true.
+Lemma assume_fault : Z.of_nat (List.length (dedup Z.eqb RMFault)) <= d_F RM /\ Z.of_nat (List.length (dedup Z.eqb (RMFault ++ RMDead))) <= d_F RM.
+Proof.
+  pose proof Assume as A. unfold d_ASSUME in A. repeat (apply andb_true_iff in A; destruct A as [A ?]).
+  repeat match goal with H : (_ <=? _) = true |- _ => apply Z.leb_le in H end. unfold card in *. split; assumption.
+Qed.
 
 Notation Nx := (d_Next RMFault RMDead RM).
 Notation ty s q := (RMStates_type (v_rmState s q)).
@@ -273,6 +280,9 @@ Qed.
 Lemma dedup_id (l : list Z) : NoDup l -> dedup Z.eqb l = l.
 Proof. induction 1 as [|x l Hx Hn IH]; cbn; auto. destruct (set_mem Z.eqb x l) eqn:E.
   - apply (set_mem_spec _ Z.eqb_eq) in E. contradiction. - rewrite IH; auto. Qed.
+Lemma Fault_le : Z.of_nat (List.length RMFault) <= d_F RM.
+Proof. destruct assume_fault as [H _]. rewrite (dedup_id _ Fault_nodup) in H. exact H. Qed.
+
 
 Theorem InvTwoBlocksAccepted_holds s : Reach s -> d_InvTwoBlocksAccepted RM s = true.
 Proof.
@@ -286,7 +296,7 @@ Proof.
   assert (I1 : incl l1 RM) by (intros y Hy; apply (Hrm _ (H1 y Hy))).
   assert (I2 : incl l2 RM) by (intros y Hy; apply (Hrm _ (H2 y Hy))).
   pose proof (inter_length l1 l2 RM N1 N2 I1 I2) as Hi.
-  unfold d_M, d_F, d_N, card in L1, L2, Fault_le. rewrite (dedup_id RM RM_nodup) in *.
+  pose proof Fault_le as Fault_le'. unfold d_M, d_F, d_N, card in L1, L2, Fault_le'. rewrite (dedup_id RM RM_nodup) in *.
   set (n := Z.of_nat (List.length RM)) in *.
   assert (Hn : 1 <= n). { unfold n. destruct RM; [destruct Hr1|cbn; lia]. }
   set (c := filter (zmem l2) l1) in *.
@@ -367,9 +377,7 @@ Proof.
     + apply Z.leb_le, C.
 Qed.
 
-(* the permitted faulty and dead nodes number at most F together (the shipped configurations use one or the other) *)
-Hypothesis Dead_nodup : NoDup RMDead.
-Hypothesis FaultDead_le : Z.of_nat (List.length RMFault) + Z.of_nat (List.length RMDead) <= d_F RM.
+(* the permitted faulty and dead nodes number at most F together: Cardinality(RMFault \cup RMDead) <= F of the ASSUME *)
 Theorem InvFaultNodesCount_holds s : Reach s -> d_InvFaultNodesCount RM s = true.
 Proof.
   intros HR. destruct (inv_reach s HR) as [Hbad _ _ _]. destruct (tinv_reach s HR) as [_ _ Hdead].
@@ -377,15 +385,12 @@ Proof.
   set (P := fun b_r : Z => (String.eqb (ty s b_r) "bad" || String.eqb (ty s b_r) "dead")%bool).
   assert (Nf : NoDup (filter P RM)) by (apply NoDup_filter, RM_nodup).
   rewrite (dedup_id _ Nf).
-  assert (Hsplit : (List.length (filter P RM) <= List.length (filter (zmem RMFault) (filter P RM)) + List.length (filter (fun x => negb (zmem RMFault x)) (filter P RM)))%nat).
-  { generalize (filter P RM). clear. induction l as [|a l IH]; cbn; [lia|]. destruct (zmem RMFault a); cbn; lia. }
-  assert (H1 : (List.length (filter (zmem RMFault) (filter P RM)) <= List.length RMFault)%nat).
-  { apply NoDup_incl_length; [apply NoDup_filter, Nf|]. intros x Hx. apply filter_In in Hx. destruct Hx as [_ Hx]. unfold zmem in Hx. destruct (in_dec Z.eq_dec x RMFault); [assumption|discriminate]. }
-  assert (H2 : (List.length (filter (fun x => negb (zmem RMFault x)) (filter P RM)) <= List.length RMDead)%nat).
-  { apply NoDup_incl_length; [apply NoDup_filter, Nf|]. intros x Hx. apply filter_In in Hx. destruct Hx as [Hx Hn]. apply filter_In in Hx. destruct Hx as [Hr Hp].
-    unfold P in Hp. apply orb_true_iff in Hp. destruct Hp as [Hp|Hp]; apply String.eqb_eq in Hp.
-    - exfalso. pose proof (Hbad x Hr Hp) as Hf. unfold zmem in Hn. destruct (in_dec Z.eq_dec x RMFault); [discriminate|contradiction].
-    - apply (Hdead x Hr Hp). }
+  destruct assume_fault as [_ Hu].
+  assert (H1 : (List.length (filter P RM) <= List.length (dedup Z.eqb (RMFault ++ RMDead)))%nat).
+  { apply NoDup_incl_length; [exact Nf|]. intros x Hx. apply (dedup_In _ Z.eqb_eq). apply in_or_app.
+    apply filter_In in Hx. destruct Hx as [Hr Hp]. unfold P in Hp. apply orb_true_iff in Hp. destruct Hp as [Hp|Hp]; apply String.eqb_eq in Hp.
+    - left. apply (Hbad x Hr Hp).
+    - right. apply (Hdead x Hr Hp). }
   lia.
 Qed.
 End Safety.
